@@ -7,6 +7,21 @@ PROOF_NOTE = ("Trusted: Lean 4.33 kernel with axioms propext/Classical.choice/Qu
               "/repo's working tree by the differential correspondence run of the Rust harness (bounded, sampled); ")
 
 CLAIMED = {
+    "C01": dict(
+        text="Lean 4 model of the whole ScopeVisitor (scope stack, two-phase reads with captured-reference de-duplication, reference merging, hoisting, if/elseif/else scope juggling, loops, methods, varargs) and of undefined_variable, plus an independent environment-passing Lua 5.1 resolver as specification. Proved for all scope tables: every diagnostic sits on a recorded unresolved read of a non-library name (C01_lint_sound) and no identifier is reported twice (C01_once). The resolution equivalence `scope-stack model = Lua resolver for every chunk` is NOT yet a Lean theorem; it is checked three-way (implementation tables / model / resolver) on every fixture, corpus and generated program - this found the scoping defects now fixed in /repo.",
+        note=PROOF_NOTE + "PARTIAL: resolution-equivalence theorem pending; full_moon parser and visitor order assumed (reproduced hook by hook, divergence = table mismatch); std enters through an oracle computed by the real code.",
+        technique="Lean 4 theorems over the lint given the scope tables (partial) + three-way correspondence: real ScopeManager tables / Lean ScopeVisitor model / environment-passing Lua resolver",
+        design="§4 C01"),
+    "C02": dict(
+        text="Lean 4 model of the whole ScopeVisitor (scope stack, two-phase reads with captured-reference de-duplication, reference merging, hoisting, if/elseif/else scope juggling, loops, methods, varargs) and of unused_variable (incl. the static-table / observes analysis), plus an independent environment-passing Lua 5.1 resolver as specification. Proved for all scope tables: a reported variable has no reference analysed as a read and is not ignored (C02_lint_sound, C02_read_protects, C02_plain_read). The resolution equivalence `scope-stack model = Lua resolver for every chunk` is NOT yet a Lean theorem; it is checked three-way (implementation tables / model / resolver) on every fixture, corpus and generated program - this found the scoping defects now fixed in /repo.",
+        note=PROOF_NOTE + "PARTIAL: resolution-equivalence theorem pending; full_moon parser and visitor order assumed (reproduced hook by hook, divergence = table mismatch); std enters through an oracle computed by the real code.",
+        technique="Lean 4 theorems over the lint given the scope tables (partial) + three-way correspondence: real ScopeManager tables / Lean ScopeVisitor model / environment-passing Lua resolver",
+        design="§4 C02"),
+    "C03": dict(
+        text="Lean 4 model of the whole ScopeVisitor (scope stack, two-phase reads with captured-reference de-duplication, reference merging, hoisting, if/elseif/else scope juggling, loops, methods, varargs) and of shadowing, plus an independent environment-passing Lua 5.1 resolver as specification. Proved for all scope tables: a diagnostic names a variable whose shadowed entry is a declared (non-hoisted) variable and points at it, and every such variable is reported unless ignored (C03_lint_sound, C03_lint_complete). The resolution equivalence `scope-stack model = Lua resolver for every chunk` is NOT yet a Lean theorem; it is checked three-way (implementation tables / model / resolver) on every fixture, corpus and generated program - this found the scoping defects now fixed in /repo.",
+        note=PROOF_NOTE + "PARTIAL: resolution-equivalence theorem pending; full_moon parser and visitor order assumed (reproduced hook by hook, divergence = table mismatch); std enters through an oracle computed by the real code.",
+        technique="Lean 4 theorems over the lint given the scope tables (partial) + three-way correspondence: real ScopeManager tables / Lean ScopeVisitor model / environment-passing Lua resolver",
+        design="§4 C03"),
     "C06": dict(
         text="Machine-checked proof that the model of find_global (global tree built by extract_into_tree, segment walk with explicit-before-`*`, struct switch, any short-circuit, implicit read-only prefixes) equals the documented resolution defined directly on the flat key map, for every library and every query path; that global_has_fields is `some key starts with the root`; that lookup never panics when struct references are closed; and that assignment targets are judged independently of position. Tied to the code by differential runs of find_global / global_has_fields and of the real lint on generated libraries, paths and assignments.",
         note=PROOF_NOTE + "keys are modelled as segment lists (no '.' inside a queried name); the scope-resolution gate is an input flag here (C01/C07).",
